@@ -8,9 +8,16 @@ The input of `receiveMessage` is the outcome of `json.loads(message.decode())`
 (`C04.LoadsOutcome`: a value or one of the four ways it can raise — trusted-base law L3).
 Everything downstream that Python can raise is explicit: `x in dict` with an unhashable `x`
 (`pyIn`), `sorted` over ids that do not compare (`pySorted`), attribute access on a caught
-non-`ProtocolError`.  Which exceptions the code catches where is **data** (`Guards`), read from
-the source tree on every run (`Facts.C05.guards`); `Guards.repaired` is the tree with
-fixes/F04–F06 applied, `Guards.pinned` the pinned tree.
+non-`ProtocolError`, `set_result` / `set_exception` on a future that is already done
+(`asyncio.InvalidStateError`).  Which exceptions the code turns into a `ProtocolError` where, and
+whether it looks at `future.done()` first, is **data** (`Guards`), derived on every run from a
+decision table obtained by *running* the real functions on hostile inputs
+(`Facts.C05.probeTable`, see `Probe.lean`); `Guards.repaired` is the tree with fixes/F04–F06
+applied, `Guards.pinned` the pinned tree.
+
+An outstanding request is a key of `JSONRPCConnection._requests` together with the state of the
+future its caller waits on: a caller that gave up (`sent_request_timeout`, cancellation) leaves
+the entry in the table with a cancelled future.
 -/
 namespace Aiorpcx.C05
 open Aiorpcx.Py Aiorpcx.C04
@@ -21,11 +28,30 @@ inductive Key where
   | batch (ids : List J)
   deriving DecidableEq, Repr
 
+/-- state of the future returned by `send_request` / `send_batch` -/
+inductive Fut where
+  /-- nobody has resolved it yet -/
+  | pending
+  /-- the waiter gave up: `future.cancel()` (what a timeout around the wait does) -/
+  | cancelled
+  /-- somebody else already set a result or an exception -/
+  | finished
+  deriving DecidableEq, Repr
+
+/-- an entry of `JSONRPCConnection._requests` -/
+structure Entry where
+  key : Key
+  fut : Fut := .pending
+  deriving DecidableEq, Repr
+
 structure Conn where
   proto : Proto
-  /-- outstanding keys in dict (insertion) order -/
-  out : List Key
+  /-- outstanding entries in dict (insertion) order -/
+  out : List Entry
   deriving DecidableEq, Repr
+
+/-- `asyncio.InvalidStateError` (a direct subclass of `Exception`) -/
+def invalidStateError : PyExc := .invalidStateError
 
 /-- caught-exception sets of the `try` statements on the receive path -/
 structure Guards where
@@ -41,6 +67,10 @@ structure Guards where
   loop : List PyExc
   /-- the `except` around `_process_request` in `_receive_request_batch` -/
   member : List PyExc
+  /-- `_receive_response` looks at `future.done()` before `set_result` / `set_exception` -/
+  doneSingle : Bool := true
+  /-- `_receive_response_batch` looks at `future.done()` before `set_result` -/
+  doneBatch : Bool := true
   deriving DecidableEq, Repr
 
 def Guards.repaired : Guards :=
@@ -63,24 +93,31 @@ inductive Completion where
 structure Recv where
   /-- the `Request`/`Notification` items returned (with the id each `send_result` is bound to) -/
   items : List (Item × J) := []
-  /-- the future resolved, if any (then nothing is returned) -/
+  /-- the pending future resolved, if any (then nothing is returned) -/
   completed : Option (Key × Completion) := none
+  /-- the entry removed from the table although its future was already done (cancelled by a
+  waiter that gave up, or resolved by somebody else): nothing is resolved, nothing returned -/
+  discarded : Option Key := none
   deriving DecidableEq, Repr
 
-def singleKeys (out : List Key) : List J :=
-  out.filterMap fun k => match k with | .single i => some i | .batch _ => none
+def singleKeys (out : List Entry) : List J :=
+  out.filterMap fun en => match en.key with | .single i => some i | .batch _ => none
 
-/-- `self._requests.pop(request_id)`: drop the (unique) key equal to it -/
-def popSingle (rid : J) : List Key → List Key
+/-- `self._requests.pop(request_id)`: drop the (unique) entry whose key equals it -/
+def popSingle (rid : J) : List Entry → List Entry
   | [] => []
-  | .single i :: r => if pyEq rid i then r else .single i :: popSingle rid r
-  | k :: r => k :: popSingle rid r
+  | en :: r =>
+      match en.key with
+      | .single i => if pyEq rid i then r else en :: popSingle rid r
+      | .batch _ => en :: popSingle rid r
 
-/-- the stored key a response id matches -/
-def findSingle (rid : J) : List Key → Option Key
+/-- the stored entry a response id matches -/
+def findSingle (rid : J) : List Entry → Option Entry
   | [] => none
-  | .single i :: r => if pyEq rid i then some (.single i) else findSingle rid r
-  | _ :: r => findSingle rid r
+  | en :: r =>
+      match en.key with
+      | .single i => if pyEq rid i then some en else findSingle rid r
+      | .batch _ => findSingle rid r
 
 /-- tuple `==` tuple -/
 def idsEq : List J → List J → Bool
@@ -88,15 +125,30 @@ def idsEq : List J → List J → Bool
   | a :: as, b :: bs => pyEq a b && idsEq as bs
   | _, _ => false
 
-def findBatch (ids : List J) : List Key → Option Key
+def findBatch (ids : List J) : List Entry → Option Entry
   | [] => none
-  | .batch ks :: r => if idsEq ids ks then some (.batch ks) else findBatch ids r
-  | _ :: r => findBatch ids r
+  | en :: r =>
+      match en.key with
+      | .batch ks => if idsEq ids ks then some en else findBatch ids r
+      | .single _ => findBatch ids r
 
-def popBatch (ids : List J) : List Key → List Key
+def popBatch (ids : List J) : List Entry → List Entry
   | [] => []
-  | .batch ks :: r => if idsEq ids ks then r else .batch ks :: popBatch ids r
-  | k :: r => k :: popBatch ids r
+  | en :: r =>
+      match en.key with
+      | .batch ks => if idsEq ids ks then r else en :: popBatch ids r
+      | .single _ => en :: popBatch ids r
+
+/-- the tail of `_receive_response` / `_receive_response_batch` once the entry `en` has been
+popped: `if not future.done(): future.set_result(..)` — or, without the `done()` test, the
+`InvalidStateError` of `set_result` on a future that is already done.  The entry is gone from
+the table in either case (the `pop` came first). -/
+def resolve (doneGuard : Bool) (c' : Conn) (en : Entry) (v : Completion) : Conn × R Recv :=
+  match en.fut with
+  | .pending => (c', .ok { completed := some (en.key, v) })
+  | _ =>
+      if doneGuard then (c', .ok { discarded := some en.key })
+      else (c', .error (.py invalidStateError))
 
 /-- `ProtocolError.invalid_request(..)` raised by the connection itself: no reply attached, not
 marked as a response -/
@@ -117,9 +169,7 @@ def receiveResponse (g : Guards) (c : Conn) (result : RespVal) (rid : J) : Conn 
   | .ok true =>
       match findSingle rid c.out with
       | none => (c, .error (.py .keyError))            -- not reachable: `known`
-      | some k =>
-          ({ c with out := popSingle rid c.out },
-           .ok { completed := some (k, .single result) })
+      | some en => resolve g.doneSingle { c with out := popSingle rid c.out } en (.single result)
 
 /-- `isinstance(payload, dict) and ('result' in payload or 'error' in payload)` -/
 def responseShapedMember : J → Bool
@@ -164,9 +214,9 @@ def receiveResponseBatch (g : Guards) (c : Conn) (payloads : List J) : Conn × R
           else
             match findBatch ids c.out with
             | none => (c, .error (unsent "response to unsent batch"))
-            | some k =>
-                ({ c with out := popBatch ids c.out },
-                 .ok { completed := some (k, .batch (ordered.map (·.2))) })
+            | some en =>
+                resolve g.doneBatch { c with out := popBatch ids c.out } en
+                  (.batch (ordered.map (·.2)))
 
 /-- one iteration of the loop of `_receive_request_batch`: an item, or the error reply of an
 invalid member -/
@@ -252,6 +302,25 @@ aborts the transport and raises `TaskTimeout` -/
 inductive SendOutcome where | sent | timedOutAborted
   deriving DecidableEq, Repr
 
+/-- what the environment of one loop iteration does.  Besides the transport, the loop body runs
+bookkeeping code that is given the peer's bytes or the error built from them — statistics and
+`logger.info(f'processing {message}')` before `receive_message`, and `logger.debug(str(e))`,
+the cost and `_bump_errors(e)` in the `except ProtocolError` handler.  None of it is inside a
+`try`, so whatever it raises leaves the loop: these are explicit raise points of the model.
+That they do not raise is not proved here; it is *measured* on every run by feeding a real
+session long hostile messages (multi-byte characters at every plausible cut point) with debug
+logging on and off (`Facts.C05.loopTable`, `facts_loop_table_quiet`). -/
+structure Env where
+  send : SendOutcome := .sent
+  /-- the code between `recv_message()` and `receive_message(message)` raised this -/
+  preRaises : Option PyExc := none
+  /-- the bookkeeping of the `except ProtocolError` handler (before the reply is sent) raised this -/
+  errRaises : Option PyExc := none
+  deriving DecidableEq, Repr
+
+/-- bookkeeping and logging raise nothing -/
+def Env.quiet (e : Env) : Bool := e.preRaises.isNone && e.errRaises.isNone
+
 structure Sess where
   conn : Conn
   phase : Phase
@@ -261,35 +330,80 @@ inductive Obs where
   | spawned (items : List (Item × J))
   | replied (reply : Reply)
   | resolved (k : Key) (v : Completion)
+  | discarded (k : Key)
   | silent
   | crashed (e : PyExc)
   deriving DecidableEq, Repr
 
 /-- one iteration of the loop on one framed message -/
-def loopStep (g : Guards) (s : Sess) (o : LoadsOutcome) (send : SendOutcome) : Sess × List Obs :=
+def loopStep (g : Guards) (s : Sess) (o : LoadsOutcome) (env : Env) : Sess × List Obs :=
   match s.phase with
   | .closed | .dead => (s, [])
   | .receiving =>
+    match env.preRaises with
+    | some x => ({ s with phase := .dead }, [.crashed x])
+    | none =>
       match receiveMessage g s.conn o with
       | (c, .ok r) =>
           ({ conn := c, phase := .receiving },
            (match r.completed with | some (k, v) => [Obs.resolved k v] | none => []) ++
+           (match r.discarded with | some k => [Obs.discarded k] | none => []) ++
              (if r.items.isEmpty then [] else [Obs.spawned r.items]))
       | (c, .error e) =>
           if e.cls.caughtBy g.loop then
             match e with
             | .proto pe =>
-                match pe.errorMessage with
-                | none => ({ conn := c, phase := .receiving }, [.silent])
-                | some reply =>
-                    match send with
-                    | .sent => ({ conn := c, phase := .receiving }, [.replied reply])
-                    | .timedOutAborted => ({ conn := c, phase := .closed }, [])
+                match env.errRaises with
+                | some x => ({ conn := c, phase := .dead }, [.crashed x])
+                | none =>
+                  match pe.errorMessage with
+                  | none => ({ conn := c, phase := .receiving }, [.silent])
+                  | some reply =>
+                      match env.send with
+                      | .sent => ({ conn := c, phase := .receiving }, [.replied reply])
+                      | .timedOutAborted => ({ conn := c, phase := .closed }, [])
             | .py x => ({ conn := c, phase := .dead }, [.crashed x])   -- `e.code` on a foreign exception
           else ({ conn := c, phase := .dead }, [.crashed e.cls])
 
-def runLoop (g : Guards) : Sess → List (LoadsOutcome × SendOutcome) → Sess
+def runLoop (g : Guards) : Sess → List (LoadsOutcome × Env) → Sess
   | s, [] => s
-  | s, (o, snd) :: rest => runLoop g (loopStep g s o snd).1 rest
+  | s, (o, env) :: rest => runLoop g (loopStep g s o env).1 rest
+
+/-! ### … interleaved with what the local side does to the table of outstanding requests
+
+Between two messages the application may send requests and batches (`send_request`,
+`send_batch`: a new entry, awaited), a waiter may give up (`sent_request_timeout` or a
+cancellation: the future is cancelled *at once*, the entry stays listed - whether and when
+somebody removes it later is up to the caller), a future may be resolved by somebody else, and
+an entry may be removed from the table by the caller. -/
+
+inductive Ev where
+  /-- a framed message arrives -/
+  | msg (o : LoadsOutcome) (env : Env)
+  /-- the session sends a request (batch) under this key -/
+  | sent (k : Key)
+  /-- the waiter of the `i`-th listed entry gives up: its future is cancelled, the entry stays -/
+  | gaveUp (i : Nat)
+  /-- the future of the `i`-th listed entry is resolved by somebody else -/
+  | resolvedElsewhere (i : Nat)
+  /-- the `i`-th listed entry is removed from the table by the caller -/
+  | forgotten (i : Nat)
+  deriving DecidableEq, Repr
+
+def setFut (f : Fut) : Nat → List Entry → List Entry
+  | _, [] => []
+  | 0, en :: r => { en with fut := if en.fut = .pending then f else en.fut } :: r
+  | i + 1, en :: r => en :: setFut f i r
+
+def evStep (g : Guards) (s : Sess) : Ev → Sess
+  | .msg o env => (loopStep g s o env).1
+  | .sent k => { s with conn := { s.conn with out := s.conn.out ++ [{ key := k }] } }
+  | .gaveUp i => { s with conn := { s.conn with out := setFut .cancelled i s.conn.out } }
+  | .resolvedElsewhere i => { s with conn := { s.conn with out := setFut .finished i s.conn.out } }
+  | .forgotten i => { s with conn := { s.conn with out := s.conn.out.eraseIdx i } }
+
+def runEvents (g : Guards) : Sess → List Ev → Sess
+  | s, [] => s
+  | s, e :: rest => runEvents g (evStep g s e) rest
 
 end Aiorpcx.C05
